@@ -384,6 +384,8 @@ func TestC19Reregistration(t *testing.T) {
 		var hist, sig []string
 		changed, shared := false, false
 		connIDs := map[*connInfo]map[int]bool{}
+		prober := nodeIdent(4)
+		var probeConn *conn
 		steps := rapid.IntRange(2, 5).Draw(rt, "steps")
 		for s := 0; s < steps; s++ {
 			who := rapid.IntRange(0, 1).Draw(rt, "who")
@@ -468,6 +470,39 @@ func TestC19Reregistration(t *testing.T) {
 				changed = true
 			}
 			latest[who] = &want{isHost: true, host: reg.expHost, port: reg.expPort, hostKnown: reg.hostKnown, uri: selfAfter.URI}
+			// a client that asks right after each registration is handed the address of THIS registration, not one the
+			// pool remembered from an earlier request
+			if probeConn == nil {
+				probeConn = dial(srv, nil, "198.51.100.11:4002", p.CloseRemote)
+				defer probeConn.Close()
+				pcreq := pool.ConnectRequest{VipnodeVersion: "verif", NodeInfo: ethnode.UserAgent{Kind: ethnode.Geth, IsFullNode: false, Network: 1}}
+				nonce++
+				var pcresp pool.ConnectResponse
+				if err := probeConn.agentSide.Call(ctx, &pcresp, "vipnode_connect", mustSign(prober.key, "vipnode_connect", prober.nodeID, nonce, pcreq), prober.nodeID, nonce, pcreq); err != nil {
+					rt.Fatalf("probe client connect: %v", err)
+				}
+			}
+			ppreq := pool.PeerRequest{Num: 5}
+			var ppresp pool.PeerResponse
+			nonce++
+			if err := probeConn.agentSide.Call(ctx, &ppresp, "vipnode_peer", mustSign(prober.key, "vipnode_peer", prober.nodeID, nonce, ppreq), prober.nodeID, nonce, ppreq); err != nil {
+				fail("peer request right after the registration failed: %v", err)
+			}
+			for _, pn := range ppresp.Peers {
+				for w2, lw := range latest {
+					if lw.isHost && ids[w2].nodeID == string(pn.ID) {
+						func() {
+							defer func() {
+								if r := recover(); r != nil {
+									fmt.Printf("C19 history:\n  %s\n", strings.Join(hist, "\n  "))
+									panic(r)
+								}
+							}()
+							checkAdvertised(rt, "handed to a client right after "+step+" for "+ids[w2].name, pn.URI, ids[w2].nodeID, lw.host, lw.port, lw.hostKnown)
+						}()
+					}
+				}
+			}
 		}
 		// what a client is handed
 		nHosts := 0
